@@ -19,6 +19,9 @@ UNKNOWN = ["no_such_setting", "clean_qq,bogus", "bogus.True", "qq_deep.2", "clea
            "default_nz.n", "segment;nonsense", "parse_qq, x_y"]
 
 
+TRACT_LEVEL = {"clean_qq", "suppress_lot_divs", "qq_depth", "qq_depth_min", "qq_depth_max", "break_halves"}
+
+
 def full(cfg):
     return {s: cfg.get(s, "unset") for s in SETTINGS}
 
@@ -119,6 +122,12 @@ def run(ctx):
             cases.append({"id": "s%d" % i, "kind": "c13_scenario",
                           "abs": {"kind": "scenario", "scn": c["scn"], "used": c["used"]},
                           "args": {"scn": c["scn"], "ref": c["ref"]}})
+            # the same scenario through parse_tracts(config=..., keyword) of the description / of its TractList: the config
+            # text is the later config channel, the keyword the keyword channel, of that one call
+            if c["scn"]["target"] == "plss" and c["scn"]["s"] in TRACT_LEVEL:
+                cases.append({"id": "s%db" % i, "kind": "c13_scenario",
+                              "abs": {"kind": "scenario", "scn": c["scn"], "used": c["used"]},
+                              "args": {"scn": dict(c["scn"], bulk=ctx.rng.choice(["plss", "tractlist"])), "ref": c["ref"]}})
     if not n_codec or not n_scn:
         raise core.MachineryFailure("Config emitted %d codec / %d scenario cases" % (n_codec, n_scn))
     # random full assignments for the codec
